@@ -509,11 +509,14 @@ class MetricsTypeIO(GraphSONTypeIO):
 
 
 def _hashable(value):
-    """Set members and map keys must be hashable: a blob (bytearray) becomes bytes, also inside a tuple."""
+    """Set members and map keys must be hashable: a blob (bytearray) becomes bytes, also inside a tuple
+    or inside a UDT that is mapped to a namedtuple."""
     if isinstance(value, bytearray):
         return bytes(value)
     if type(value) is tuple:
         return tuple(_hashable(v) for v in value)
+    if isinstance(value, tuple) and hasattr(value, '_fields'):
+        return type(value)(*[_hashable(v) for v in value])
     return value
 
 
